@@ -404,7 +404,7 @@ def classify(rec, clauses):
         # match ("adjust_chunks specified with ..."); dask's own cumsum cannot broadcast across an empty chunk either
         ch = list(dict((d, c) for d, c in rec["chunks"])[operated_dim(rec)])
         msg = rec["out"].get("msg", "")
-        if 0 in ch and ("adjust_chunks" in msg or (rec.get("op") == "cumsum" and "broadcast" in msg)):
+        if 0 in ch and ("adjust_chunks" in msg or (rec.get("op") == "cumsum" and ("broadcast" in msg or "replacement data must match" in msg))):
             return KNOWN_EMPTY
     return f"dask-{rec['kind']}-{cl}"
 
